@@ -406,10 +406,19 @@ func (i *interpreter) boundsCheck(idx value, n int) {
 	}
 	c := i.ctx
 	var inb *smt.Term
-	nn := c.BV(uint64(n), s.t.W)
+	w := s.t.W
+	nn := c.BV(uint64(n), w)
 	if kindSigned(s.k) {
-		inb = c.And(c.Sle(c.BV(0, s.t.W), s.t), c.Slt(s.t, nn))
+		if w < 64 && uint64(n) > (uint64(1)<<uint(w-1))-1 {
+			// the length exceeds the index type's maximum: only negativity can fail
+			inb = c.Sle(c.BV(0, w), s.t)
+		} else {
+			inb = c.And(c.Sle(c.BV(0, w), s.t), c.Slt(s.t, nn))
+		}
 	} else {
+		if w < 64 && uint64(n) > (uint64(1)<<uint(w))-1 {
+			return // every value of the index type is in range
+		}
 		inb = c.Ult(s.t, nn)
 	}
 	if !i.branch(inb) {
